@@ -148,6 +148,10 @@ func runC08(w *World) *Result {
 	_ = rr
 	EscapeOrderRule(w, "bash", r, "R-C08-escape")
 	EscapeOrderRule(w, "batch", r, "R-C08-escape")
+	r.Rule("R-C08-atom", "every value-producing method hands back one unit of shell text (one expansion, one literal, the value it was handed)", 10)
+	if ab, err := BuildBackend(w, "bash"); err == nil {
+		ValueAtomRule(w, ab, r, "R-C08-atom")
+	}
 	r.Rule("R-C08-lexdecode", "in the loop that decodes string literals, every character copied verbatim comes from the position that was probed for an escape sequence in the same iteration", 1)
 	LexDecodeRule(w, r, "R-C08-lexdecode")
 	r.Rule("R-C08-state", "converted literal text is not kept on the transpiler object from one target to the next (no state across Transpile calls)", 1)
